@@ -57,6 +57,9 @@ let () =
   iter_cases (fun id cfg ops ->
     Printf.printf "case %s\n" id;
     let apply = cfg_get cfg "apply" "1" <> "0" in
+    let rxck = cfg_get cfg "rxck" "1" <> "0" in
+    (* echoed, not modelled: the parameter request list bytes the application configured *)
+    let prl = ref "010306" in
     let ip_mtu = z_of_int (int_of_string (cfg_get cfg "mtu" "1514") - 14) in
     let s = dhcp_new in
     let s = dhcp_set_retry_config s (retry_of cfg dhcp_retry_default) in
@@ -83,9 +86,9 @@ let () =
             let e = int_of_z eth in
             let ethdst = if e = 0 then "bcast"
               else Printf.sprintf "02-01-%02x-%02x-%02x-%02x" ((e lsr 24) land 255) ((e lsr 16) land 255) ((e lsr 8) land 255) (e land 255) in
-            Printf.printf "tx dhcp %s xid=%s ci=%s req=%s sid=%s bc=0 src=%s dst=%s ethdst=%s sport=%s dport=%s maxsz=%s ch=own cid=own prl=010306 secs=0 hop=64\n"
+            Printf.printf "tx dhcp %s xid=%s ci=%s req=%s sid=%s bc=0 src=%s dst=%s ethdst=%s sport=%s dport=%s maxsz=%s ch=own cid=own prl=%s secs=0 hop=64\n"
               (string_of_mt f.tx_message_type) rel (ipz f.tx_client_ip) (oipz f.tx_requested_ip) (oipz f.tx_server_identifier)
-              (ipz f.tx_src_addr) (ipz f.tx_dst_addr) ethdst (lz f.tx_src_port) (lz f.tx_dst_port) (lz f.tx_max_size)
+              (ipz f.tx_src_addr) (ipz f.tx_dst_addr) ethdst (lz f.tx_src_port) (lz f.tx_dst_port) (lz f.tx_max_size) !prl
         | ObTxArp (spa, tpa) -> Printf.printf "tx arp req spa=%s tpa=%s ethdst=bcast\n" (ipz spa) (ipz tpa)
         | ObEvent None -> print_string "ev none\n"
         | ObEvent (Some EvDeconfigured) -> print_string "ev deconf\n"
@@ -135,7 +138,7 @@ let () =
               | "trunc" | "magic" | "htype" | "hlen" | "nomsgtype" | "opcode" -> None
               | _ -> Some r in
             let eth = match get m "eth" "bcast" with "bcast" -> 0 | "own" -> 1 | _ -> 2 in
-            let fr = FrDhcp (z_of_int eth, bad <> "ipcksum", bad <> "udpcksum",
+            let fr = FrDhcp (z_of_int eth, (bad <> "ipcksum" || not rxck), (bad <> "udpcksum" || not rxck),
                              zip (get m "ipsrc" "10.0.0.1"), zip (get m "ipdst" "255.255.255.255"),
                              zl (get m "sport" "67"), zl (get m "dport" "68"), parsed) in
             st := dhif_enqueue !st fr
@@ -143,6 +146,16 @@ let () =
         | "setmaxlease" :: v :: _ ->
             st := dhif_map_sock (fun s -> dhcp_set_max_lease_duration s (if v = "-" then None else Some (dur v))) !st
         | "reset" :: _ -> st := dhif_map_sock dhcp_reset !st
+        | "setports" :: sp :: cp :: _ -> st := dhif_map_sock (fun s -> dhcp_set_ports s (zl sp) (zl cp)) !st
+        | "setrxbuf" :: _ -> st := dhif_map_sock dhcp_set_receive_packet_buffer !st
+        | "setopts" :: v :: _ ->
+            (* option bytes are not modelled; the setter refuses data longer than 255 octets *)
+            if v <> "-" && List.exists (fun t ->
+                 match String.split_on_char ':' t with [_; l] -> int_of_string l > 255 | _ -> false)
+                 (String.split_on_char ',' v)
+            then print_string "rejected\n"
+        | "setprl" :: v :: _ ->
+            if String.length v / 2 > 255 then print_string "rejected\n" else prl := v
         | "setnaks" :: v :: _ -> st := dhif_map_sock (fun s -> dhcp_set_ignore_naks s (v <> "0")) !st
         | "setretry" :: _ -> st := dhif_map_sock (fun s -> dhcp_set_retry_config s (retry_of m s.ds_retry_config)) !st
         | _ -> failwith ("bad op " ^ op)
